@@ -90,7 +90,22 @@ func nilFieldContradictions(c *Ctx, r *Report, rule string, floor int, inPkg fun
 					}
 				case *ssa.Store:
 					if _, sn, f, ok := fieldAddr(x.Addr); ok {
-						stored[fkey{sn, f}] = true
+						// "created lazily" or "reset": the store puts nil there, or it is made under a test of that
+						// very field (if x.f == nil { x.f = new... }). A field that is merely filled in from another
+						// value (a table of optional things built without the absent ones) is not nil "at times"
+						lazy := isNilConst(x.Val)
+						for _, cd := range edgeConds(x.Block()) {
+							if v, _, isNil := nilCheck(cd.V); isNil {
+								if ld, isLd := v.(*ssa.UnOp); isLd && ld.Op == token.MUL {
+									if _, sn2, f2, ok2 := fieldAddr(ld.X); ok2 && sn2 == sn && f2 == f {
+										lazy = true
+									}
+								}
+							}
+						}
+						if lazy {
+							stored[fkey{sn, f}] = true
+						}
 					}
 				}
 			}
